@@ -7,6 +7,10 @@
     an object number wins without overriding slots already resolved (C04-R5).
  R3 trailer reconstruction keeps /Encrypt and /ID and sets /Root and /Size.
  R4 the header recogniser accepts a line only when its third token is exactly `obj`.
+ R5 entry slots: in a classic cross-reference subsection the n-th entry *line* belongs to object `first + n` whether or not the line
+    parses; the counter that is added to the subsection's first object number is incremented on every path from the entry
+    parser back to the loop header (the failed-parse arm included). A counter advanced only on success files every entry after
+    a damaged line one object number too low.
 Not decided: equality of every recovered object with the intact file.
 """
 from .. import lib as L
@@ -18,6 +22,7 @@ X = "parser::xref::XRefTable::"
 
 
 def run(ctx):
+    r5_entry_slots(ctx)
     facts = ctx.facts
     po = ctx.fn(X + "parse_with_options", "anchor")
     g = CF.cfg(po)
@@ -95,3 +100,48 @@ def run(ctx):
     else:
         ctx.violation("R4", "header-recogniser:third-token==obj", "the object-header recogniser does not compare the third token with `obj` "
                       "exactly (constants: %s): `endobj` lines or arbitrary text are taken for object headers" % strs[:4], ph.where())
+
+
+def r5_entry_slots(ctx):
+    from .. import cfg as CF
+    from .. import flow as FL
+    fn = ctx.fn("parser::xref::XRefTable::parse_traditional_xref_with_options", "R5")
+    g = CF.cfg(fn)
+    fl = FL.flow(fn)
+    adds = [(b, a) for b, c, a, d in L.calls_to(fn, ["checked_add"]) if len(a) == 2]
+    pe = [b for b, c, a, d in L.calls_to(fn, ["parse_xref_entry"])]
+    if not ctx.floor("R5", "checked_add(first object number, slot) in the entry loop", len([x for x in adds if any(x[0] in body for body in g.loops().values())]), 1) \
+            or not ctx.floor("R5", "parse_xref_entry call", len(pe), 1):
+        return
+    key = "entry-loop:slot-counter-advances-on-every-entry-line"
+    for b, a in adds:
+        loops = [(h, body) for h, body in g.loops().items() if b in body and pe[0] in body]
+        if not loops:
+            continue
+        h, body = min(loops, key=lambda x: len(x[1]))
+        # the slot operand: the argument that is not the subsection's first object number (it changes inside the loop)
+        slot = None
+        for o in a:
+            pl = FL.op_place(o)
+            if pl is None:
+                continue
+            seen, drecs = fl.back_slice([pl[0]], stop_at_calls=lambda c: True)
+            incs = [dd for dd in drecs if dd[0] == "stmt" and dd[1] in body and fn.blocks[dd[1]][0][dd[2]][2][0] == "bin"
+                    and fn.blocks[dd[1]][0][dd[2]][2][1].startswith("Add")]
+            if incs:
+                slot = (pl[0], sorted(set(dd[1] for dd in incs)))
+        if slot is None:
+            ctx.violation("R5", key, "the value added to the subsection's first object number is never incremented inside the entry loop",
+                          fn.where(b))
+            continue
+        latches = [s_ for s_, hh in g.back_edges() if hh == h]
+        outside = set(range(len(fn.blocks))) - set(body)
+        w = g.path(pe[0], latches, avoid_blocks=set(slot[1]) | outside)
+        if w is None:
+            ctx.ok("R5", key, "the slot counter is incremented on every path from parse_xref_entry to the loop header", fn.where(slot[1][0]))
+        else:
+            ctx.violation("R5", key, "after an entry line has been read and handed to parse_xref_entry the loop can continue (through "
+                          "line(s) %s) without advancing the counter that is added to the subsection's first object number: an "
+                          "unparseable entry does not consume its slot, so every later entry of the subsection is filed one object "
+                          "number too low and references resolve to the wrong objects" % sorted(set(fn.line(x) for x in w))[:8],
+                          fn.where(w[0]), {"path_lines": [fn.line(x) for x in w][:12]})
